@@ -17,7 +17,7 @@ import random
 import shutil
 import tempfile
 
-from .. import core, nets, tla, mc
+from .. import core, nets, observe, tla, mc
 
 LEVEL = "model_checking"
 
@@ -88,6 +88,7 @@ class Recorder:
         self.runs = 0
         self.last_run_con = None
         self.answer_con = None
+        self.last_update_con = None
 
 
 def instrument(cls, rec):
@@ -106,6 +107,30 @@ def instrument(cls, rec):
             return super()._reconstruct_tree(inputs, output, size_dict, con)
     Wrapped.__name__ = cls.__name__
     return Wrapped
+
+
+class TagCache:
+    """proxy around the optimizer's cache object: an entry stored without a run tag (update_from_tree builds its own
+    record) gets the next tag, so that the judge can tell which entry answers later queries"""
+    def __init__(self, inner, rec):
+        object.__setattr__(self, "_inner", inner)
+        object.__setattr__(self, "_rec", rec)
+
+    def __setitem__(self, k, v):
+        if isinstance(v, dict) and "verif_run" not in v:
+            self._rec.runs += 1
+            v = dict(v, verif_run=self._rec.runs)
+            self._rec.last_update_con = v
+        self._inner[k] = v
+
+    def __getitem__(self, k):
+        return self._inner[k]
+
+    def __contains__(self, k):
+        return k in self._inner
+
+    def __getattr__(self, name):
+        return getattr(self._inner, name)
 
 
 def disk_listing(directory, split):
@@ -162,9 +187,12 @@ def replay_sequence(run, ct, rng, pool, seq, cfg):
         kw = dict(directory=directory, overwrite=ow, hash_method=cfg["hash"], cache_only=co,
                   directory_split=split)
         if kind == "hyper":
-            return cls(methods=["greedy"], max_repeats=2, optlib="random", parallel=False,
-                       slicing_opts={"target_slices": 2}, **kw)
-        return cls(max_repeats=2, seed=rng.randrange(1000), parallel=False, **kw)
+            o = cls(methods=["greedy"], max_repeats=2, optlib="random", parallel=False,
+                    slicing_opts={"target_slices": 2}, **kw)
+        else:
+            o = cls(max_repeats=2, seed=rng.randrange(1000), parallel=False, **kw)
+        o._cache = TagCache(o._cache, rec)
+        return o
 
     viol = []
 
@@ -188,15 +216,38 @@ def replay_sequence(run, ct, rng, pool, seq, cfg):
         else:
             cur.append((step, q))
     segments.append(cur)
+    nsteps = len(seq)
 
     def do_segment(seg, si=0):
         nonlocal raw
         raw = []
         opt = new_opt(ow_py, False, first=(si == 0))
         for step, q in seg:
+            if isinstance(q, list):
+                # ["u", pool index, mode, quality]: update_from_tree with a tree made outside the optimizer
+                _, uq, mode, quality = q
+                net = pool[uq - 1]
+                if quality == "optimal":
+                    utree = ct.array_contract_tree(net.c_inputs(), net.c_output(), net.c_sizes(), optimize="optimal", canonicalize=False)
+                else:
+                    utree = observe.build_tree(ct, net, nets.tree_to_ssa(nets.rand_tree(rng, net.N), net.N, rng))
+                utree.set_default_objective(opt.minimize)
+                akw = {} if mode == "default" else {"overwrite": {"no": False, "yes": True, "improved": "improved"}[mode]}
+                with core.watchdog(120):
+                    opt.update_from_tree(utree, **akw)
+                h = opt.hash_query(net.c_inputs(), net.c_output(), net.c_sizes())[0]
+                mc_ = opt._cache._mem_cache
+                con = mc_.get(h) or mc_.get(h if isinstance(h, tuple) else (h,))
+                if con is None and directory:
+                    con = opt._cache[h]
+                raw.append({"kind": "update", "q": uq, "ow": "improved" if mode == "default" else mode, "co": False, "ran": False,
+                            "outcome": "none", "_runscore": float(utree.get_score()),
+                            "answer_run": int(con["verif_run"]) if con else 0,
+                            "disk": sorted(set(classes.get(x, 0) for x in disk_listing(directory, cfg["split"])))})
+                continue
             net = pool[q - 1]
             # cache_only is exercised on the last query of a sequence with probability 1/3
-            co = cfg["cache_only_last"] and step == len(seq) - 1
+            co = cfg["cache_only_last"] and step == nsteps - 1
             opt.cache_only = co
             rec.answer_con = None
             runs0 = rec.runs
@@ -259,6 +310,11 @@ def replay_sequence(run, ct, rng, pool, seq, cfg):
                 if kind == "hyper":
                     rebuilt.set_default_objective(opt.minimize)
                     sc = rebuilt.get_score()
+                else:
+                    # the random-greedy class stores log10 of the flops of the path it returns
+                    import math
+                    sc = math.log10(max(1, rebuilt.total_flops()))
+                if True:
                     if abs(sc - answer["score"]) > 1e-9 * max(1, abs(sc)):
                         # the pool members sharing the query's fingerprint identify the input class (F11: same wiring,
                         # sizes sitting on other edges)
@@ -294,7 +350,7 @@ def replay_sequence(run, ct, rng, pool, seq, cfg):
     vals = sorted(set(e["_runscore"] for e in raw if e.get("_runscore") is not None))
     rank = {v: i + 1 for i, v in enumerate(vals)}
     for e in raw:
-        if e["kind"] == "query":
+        if e["kind"] in ("query", "update"):
             rs = e.pop("_runscore")
             e["runscore"] = rank.get(rs, 0)
             e["disk"] = set(e["disk"])
@@ -333,6 +389,13 @@ def run(run):
                "cache_only_last": rng.random() < 0.3, "via_call": rng.random() < 0.4,
                "fresh_process": (not quick) or rng.random() < 0.15, "auto_after_restart": rng.random() < 0.5}
         pool = rng.choice(pools)
+        if cfg["kind"] == "hyper" and rng.random() < 0.45:
+            # answers handed in from outside (update_from_tree) with their own overwrite mode, anywhere in the sequence
+            seq = list(seq)
+            for _ in range(rng.choice([1, 1, 2])):
+                pos = rng.randint(0, len(seq))
+                seq.insert(pos, ["u", rng.randint(1, len(pool)), rng.choice(["default", "default", "no", "yes", "improved"]),
+                                 rng.choice(["optimal", "random", "random"])])
         run.count()
         run.nontrivial((str(seq), str(cfg), pool[0].eq()))
         try:
